@@ -13,7 +13,7 @@ def sigma(name, sd=None):
     full = core + ['*', '%', '&', '#', '\\(', '\\)', '\\begin', '\\end', '{%s}' % N.e,
                    '\\begin{equation}', '\\end{equation}', '\\begin{verbatim}', '\\end{verbatim}', '\\newcommand',
                    '\\end{%s%s}' % (N.e, N.e), '\\end{f}', '\\left(', '\\big|', '\\cup', '\\textbf', '\\section',
-                   '\\def', '[%s]' % N.e, '\\begin{%s[}' % N.e, '\\end{%s[}' % N.e, '\\end{{%s}}' % N.e, '\r\n',
+                   '\\def', '[%s]' % N.e, '\\begin{%s[}' % N.e, '\\end{%s[}' % N.e, '\\end{{%s}}' % N.e, '\r\n', '\x0c',
                    '\x00', '\x7f', '\r']
     mini = ['\\', '{', '}', '[', ']', '$', N.sp, '\n', N.a, '%', '\\' + N.x, '\\begin{%s}' % N.e, '\\end{%s}' % N.e]
     return {'full': full, 'core': core, 'min': mini}[name]
